@@ -1216,9 +1216,8 @@ func runReadPos(r *core.Run) {
 			continue
 		}
 		// offset argument, in the terms of the entry method
-		offV, left := valueThrough(bytesCall.Call.Args[2], bytesChain)
-		offArg := linOf(offV)
-		inEntry := left == 0
+		// (a field read through the helper's own receiver — r.pos inside r.next(b, n) — is the entry method's field)
+		offArg, inEntry := linThroughChain(linOf(bytesCall.Call.Args[2]), bytesChain)
 		if tc.name == "ReadAt" {
 			r.Check(inEntry && offArg.equal(linAtom(fn.Params[2].Name())), "ReadAt reads at off", bytesCall.Pos(), "", "ReadAt does not pass its off argument to Bytes")
 		} else {
@@ -1310,11 +1309,38 @@ func runReadPos(r *core.Run) {
 					}
 				}
 				// and the value stored is the back end's error
-				v, n := valueThrough(st.Val, errStores[0].chain)
-				if ex, isEx := v.(*ssa.Extract); !isEx || ex.Tuple != ssa.Value(bytesCall) || ex.Index != 1 || n != len(bytesChain) {
-					if !(isEx && ex.Tuple == ssa.Value(bytesCall) && ex.Index == 1) {
-						ok = false
+				v, _ := valueThrough(st.Val, errStores[0].chain)
+				// the back end's error itself, or the error result of a helper of the unit all of whose returns hand it on
+				var isBackendErr func(v ssa.Value, depth int) bool
+				isBackendErr = func(v ssa.Value, depth int) bool {
+					ex, isEx := v.(*ssa.Extract)
+					if !isEx || depth > 3 {
+						return false
 					}
+					if ex.Tuple == ssa.Value(bytesCall) {
+						return ex.Index == 1
+					}
+					c, isCall := ex.Tuple.(*ssa.Call)
+					if !isCall {
+						return false
+					}
+					g := c.Call.StaticCallee()
+					if g == nil || len(g.Blocks) == 0 || g.Object() == nil || g.Object().Exported() {
+						return false
+					}
+					nret := 0
+					for _, gb := range g.Blocks {
+						if ret, isRet := lastInstr(gb).(*ssa.Return); isRet {
+							nret++
+							if ex.Index >= len(ret.Results) || !isBackendErr(ret.Results[ex.Index], depth+1) {
+								return false
+							}
+						}
+					}
+					return nret > 0
+				}
+				if !isBackendErr(v, 0) {
+					ok = false
 				}
 			}
 			r.Check(ok, tc.name+" first error wins", fn.Pos(), "", "the error field is not assigned exactly once, under `err == nil`, with the error the back end returned")
